@@ -326,6 +326,7 @@ def extract_fn(relpath, qual, ann):
     apply_maploops(ed, it, it["closures"], src, ann, qual, relpath)
     apply_forloops(ed, it["loops"], src, ann, qual)
     apply_fund_sums(ed, src, s0, e0)
+    apply_storage_has(ed, it, src)
     apply_anyloops(ed, it, it["closures"], src, ann, qual)
     apply_findloops(ed, it, it["closures"], src, ann, qual)
     # R6 response attributes
@@ -467,6 +468,23 @@ def apply_findloops(ed, it, closures, src, ann, qual):
         hit = (ann.get("findhits") or {}).get(str(k), "").strip()
         ext = (ann.get("findexits") or {}).get(str(k), "").strip()
         ed.add(b1, mp["span"][1], " { verif_found = Some(" + ptxt + "); " + hit + " break; } verif_fi = verif_fi + 1; } " + ext + " verif_found }", None)
+
+
+
+def apply_storage_has(ed, it, src, inside=lambda sp: True):
+    """R13: exec calls `X.has(<storage>[, k])` of cw-storage-plus are renamed `has_exec` (the prelude reserves `has` for the spec
+    predicate of the same meaning; `has_exec` returns exactly that predicate)."""
+    for m in it.get("mcalls", []):
+        if m["name"] != "has" or not m["args"] or not inside(m["span"]):
+            continue
+        a0 = src[m["args"][0][0]:m["args"][0][1]].decode().strip()
+        if a0 not in ("deps.storage", "storage", "&*deps.storage", "deps.as_ref().storage"):
+            continue
+        seg = src[m["recv_end"]:m["args"][0][0]]
+        mm = re.search(rb"\.\s*has\s*\(", seg)
+        if not mm:
+            continue
+        ed.add(m["recv_end"] + mm.start(), m["recv_end"] + mm.end(), ".has_exec(", "R13", "storage `has` -> prelude exec name")
 
 
 
@@ -657,6 +675,7 @@ def extract_segment(relpath, qual, ann):
     apply_maploops(ed, it, seg_closures, src, ann, qual, relpath)
     apply_forloops(ed, seg_loops, src, ann, qual)
     apply_fund_sums(ed, src, s0, e0)
+    apply_storage_has(ed, it, src, inside)
     apply_anyloops(ed, it, seg_closures, src, ann, qual)
     apply_findloops(ed, it, seg_closures, src, ann, qual)
     if ann.get("tail") and k1 == len(st):
